@@ -693,11 +693,15 @@ cmd_cc(const struct yuck_cmd_cc_s argi[static 1U])
 	/* establish environment */
 	exst_only_p = argi->existing_only_flag;
 
-	if (parse_file(argi->args[0U]) < 0) {
-		error("cannot read file `%s'", *argi->args ?: "stdin");
-		rc = 1;
-		goto out;
-	} else if (unsorted_p) {
+	for (size_t i = 0U; i < argi->nargs || i == 0U; i++) {
+		/* all FILEs make up one source */
+		if (parse_file(argi->args[i]) < 0) {
+			error("cannot read file `%s'", argi->args[i] ?: "stdin");
+			rc = 1;
+			goto out;
+		}
+	}
+	if (unsorted_p) {
 		rc = 1;
 		goto out;
 	} else if (zn_overflow_p) {
